@@ -43,11 +43,18 @@ proof fn lemma_initial_env<'a>(names: Seq<&'a str>, k: nat)
     }
 }
 
-// check_definitions (definition order, C01) is not under contract: it reads the resolved term and may push errors
+// check_definitions (definition order, C01): in the C08 flavour of this unit the stub carries the contract the real
+// function is verified against in unit U6 (it only ever pushes errors; its assert_eq! on hole shifts cannot fire on the
+// term resolve_variables returns); in the C07 flavour it has no contract.  (The line below is filled in by the weaver.)
+$CHECK_DEFINITIONS_STUB
+
+// ASSUMPTION (physical): walking a resolved term from the depth of the context cannot push `depth` past usize::MAX -- every
+// binder of the term and every entry of the name map is a distinct heap object
 #[verifier::external_body]
-fn check_definitions<'a>(source_path: SourcePath<'a>, source_contents: &'a str, term: &term::Term<'a>, depth: usize, errors: &mut Vec<Error>)
-    ensures final(errors)@.len() >= old(errors)@.len(),   // ASSUMED: it only ever pushes
-{ unimplemented!() }
+proof fn axiom_depth_fits<'a>(t: &term::Term<'a>, c: &Context<'a>)
+    ensures ctx_len(*c) + cd_depth(*t) < usize::MAX,
+{
+}
 
 // R16: the rejecting exit of parse(): which messages it carries is outside the property
 #[verifier::external_body]
